@@ -172,3 +172,73 @@ def scratch_raises(ctx, st, exc):
 
 
 UNITS.append(Unit("C09", "jsonargparse._core:ArgumentParser.parse_args", scratch_setup, scratch_post, scratch_raises, label="scratch-attribute-args", expect_cover=("return", "raise:ArgumentError")))
+
+
+# ------------------------------------------------------------------------------------------------ get_class_parser: a fresh parser per adaptation, nothing written back
+def gcp_setup(ctx):
+    from pyvc.engine import Fn
+    sak_kind = ["None", "empty", "settings", "settings-with-skip-set", "settings-with-spec-default", "settings-with-linked-targets"][ctx.choose(6, "sub_add_kwargs")]
+    skip_args = [0, 1][ctx.choose(2, "skip_args")]
+    is_class = ctx.choose(2, "class-or-function") == 0
+    given_as = ["object", "import-path"][ctx.choose(2, "val_class-given-as")]
+    the_class = Rec("the class")
+    skip_set = {"x"}
+    spec_default = Rec("Namespace", attrs={"spec": True}, methods={"get": lambda c, s_, a, k: Rec("init_args of the default") if a[0] == "init_args" else None})
+    linked = {"lk"}
+    sak = {"None": None, "empty": {}, "settings": {"fail_untyped": True}, "settings-with-skip-set": {"fail_untyped": True, "skip": skip_set},
+           "settings-with-spec-default": {"fail_untyped": True, "default": spec_default, "instantiate": False}, "settings-with-linked-targets": {"fail_untyped": True, "linked_targets": linked}}[sak_kind]
+    snapshot = dict(sak) if sak is not None else None
+    skip_snapshot = set(skip_set)
+    required = {"lk", "other"}
+    made = []
+
+    def new_parser(c, a, k):
+        p = Rec("ArgumentParser(new)", attrs={"required_args": required, "made_with": dict(k)}, methods={
+            "add_class_arguments": lambda c2, s2, a2, k2: c2.event("add_class_arguments", a2[0], dict(k2)),
+            "add_function_arguments": lambda c2, s2, a2, k2: c2.event("add_function_arguments", a2[0], dict(k2)),
+            "link_arguments": lambda c2, s2, a2, k2: c2.event("link", dict(k2))})
+        made.append(p)
+        return p
+
+    current = Rec("ArgumentParser(current)", attrs={"logger": Rec("logger"), "parser_mode": "yaml"})
+    calls = {"import_object": lambda c, a, k: (c.event("import", a[0]), the_class)[1], "is_subclass_spec": lambda c, a, k: isinstance(a[0], Rec) and a[0].attrs.get("spec", False),
+             "parent_parser.get": lambda c, a, k: current, "type": lambda c, a, k: Fn(new_parser, "type(parser)"), "remove_actions": lambda c, a, k: c.event("remove_actions", a[0]),
+             "inspect.isclass": lambda c, a, k: is_class, "nested_links.get": lambda c, a, k: [{"source": "s", "target": "t"}]}
+    consts = {"ActionConfigFile": Rec("ActionConfigFile"), "_ActionPrintConfig": Rec("_ActionPrintConfig")}
+    env = {"val_class": the_class if given_as == "object" else "pkg.K", "sub_add_kwargs": sak, "skip_args": skip_args}
+    return Setup(env=env, calls=calls, consts=consts, data=dict(sak_kind=sak_kind, skip_args=skip_args, is_class=is_class, given_as=given_as, the_class=the_class, sak=sak, snapshot=snapshot, skip_set=skip_set,
+                                                                skip_snapshot=skip_snapshot, made=made, current=current, required=required, linked=linked, spec_default=spec_default))
+
+
+def gcp_post(ctx, st, result):
+    d = st.data
+    tag = f"[{d['sak_kind']},skip_args={d['skip_args']},{'class' if d['is_class'] else 'function'}]"
+    ctx.oblige("post", "a-new-parser-is-built-for-every-call(same logger and mode as the current one,failures as exceptions,marked as inner)" + tag,
+               len(d["made"]) == 1 and result is d["made"][0] and result.attrs["made_with"] == {"exit_on_error": False, "logger": d["current"].attrs["logger"], "parser_mode": "yaml"} and result.attrs.get("_inner_parser") is True)
+    if d["sak"] is not None:
+        ctx.oblige("frame", "the-settings-handed-in(the action's own sub_add_kwargs)-are-not-written:nothing-of-this-call-is-remembered-for-the-next-one" + tag,
+                   d["sak"] == d["snapshot"] and all(d["sak"][k] is d["snapshot"][k] for k in d["snapshot"]) and d["skip_set"] == d["skip_snapshot"])
+    ev = [e for e in ctx.events if e[0] in ("add_class_arguments", "add_function_arguments")]
+    want_kw = dict(d["snapshot"] or {})
+    if d["skip_args"]:
+        want_kw["skip"] = set(d["skip_snapshot"] if "skip" in want_kw else set()) | {d["skip_args"]}
+    if d["sak_kind"] == "settings-with-spec-default":
+        want_kw["default"] = "<init_args of the default>"
+    if not d["is_class"]:
+        want_kw.pop("instantiate", None)
+    got = dict(ev[0][2]) if ev else {}
+    if "default" in got and isinstance(got["default"], Rec) and got["default"].cls == "init_args of the default":
+        got["default"] = "<init_args of the default>"
+    ctx.oblige("post", "the-class's(function's)-parameters-are-declared-with-those-settings(+ the positionals to skip;a spec default reduced to its init_args)" + tag,
+               len(ev) == 1 and ev[0][0] == ("add_class_arguments" if d["is_class"] else "add_function_arguments") and ev[0][1] is d["the_class"] and got == want_kw)
+    if d["sak_kind"] == "settings-with-linked-targets":
+        ctx.oblige("post", "a-parameter-that-is-a-link-target-upstream-is-not-required-from-the-user" + tag, d["required"] == {"other"})
+    ctx.oblige("post", "links-nested-in-the-spec-are-declared-on-the-new-parser" + tag, [e[1] for e in ctx.events if e[0] == "link"] == [{"source": "s", "target": "t"}])
+
+
+def gcp_raises(ctx, st, exc):
+    ctx.oblige("raises", f"no-own-exception(got {exc.cls}@{exc.origin})", False)
+
+
+UNITS.append(Unit("C09", "jsonargparse._typehints:ActionTypeHint.get_class_parser", gcp_setup, gcp_post, gcp_raises, max_paths=5000,
+                  trusted=["type(parser)(...) builds an empty parser; add_class_arguments / add_function_arguments / link_arguments by contract"]))
